@@ -10,7 +10,7 @@ PARTIAL = ("Proved per operation (refinement to list operations on the option's 
            "refuse) and the frame property at any depth: an update through one option reference leaves the option at every disjoint reference "
            "exactly as it was (lens_frame), so every by-path setter - successful or refused - touches the addressed option only (C09_api_frame): the "
            "store is a map from references to value sequences and each call is a point update. Sequences are compositions of these; that a path "
-           "names the reference the caller means is C11_resolve. The tie enumerates all sequences to depth 2/3 over 66 calls from two start states "
+           "names the reference the caller means is C11_resolve. The tie enumerates all sequences to depth 2/3 over 83 calls from two start states "
            "plus random sequences to length 40.")
 VARIANT = "asan"
 RULE = ("operation sequences over a finite alphabet of API calls and arguments (scalar/indexed setters, cfg_setlist/addlist, "
@@ -26,8 +26,12 @@ SCHEMA = [Opt("i", "int", 0, 7), Opt("s", "str", 0, b"d"), Opt("b", "bool", 0, F
           Opt("m", "sec", MULTI | TITLE, None, "-", [Opt("x", "int", 0, 3), Opt("xl", "int", LIST, [b"5"])]),
           Opt("u", "sec", MULTI | TITLE | NO_TITLE_DUPES, None, "-", [Opt("y", "str", 0, None)]),
           Opt("n", "sec", MULTI, None, "-", [Opt("z", "int", 0, 0)]),
-          Opt("one", "sec", 0, None, "-", [Opt("w", "int", 0, 1), Opt("wl", "str", LIST, [b"a", b"b"])])]
+          Opt("one", "sec", 0, None, "-", [Opt("w", "int", 0, 1), Opt("wl", "str", LIST, [b"a", b"b"])]),
+          # CFG_SIMPLE_*: the value cell is a variable of the caller's
+          Opt("si", "int", 0, 5, "s"), Opt("ss", "str", 0, b"init", "s"), Opt("sn", "str", 0, None, "s"), Opt("sb", "bool", 0, True, "s"),
+          Opt("sf", "float", 0, 0.5, "s")]
 
+SIMPLE_NAMES = {hx("si"), hx("ss"), hx("sn"), hx("sb"), hx("sf")}
 OPS = [
     "SI 0 %s 0 5" % hx("i"), "SI 0 %s 1 6" % hx("i"), "SI 0 %s 0 9" % hx("l"), "SI 0 %s 1 9" % hx("l"), "SI 0 %s 5 9" % hx("l"),
     "SI 0 %s 0 1" % hx("s"), "SS 0 %s 0 %s" % (hx("s"), hx("new")), "SS 0 %s 0 -" % hx("s"), "SS 0 %s 2 %s" % (hx("sl"), hx("q")),
@@ -52,6 +56,11 @@ OPS = [
     "SOA 0 %s" % hx("s"), "SOA 0 %s" % hx("sl"), "SSA 0 %s 0" % hx("s"), "SSA 0 %s 0" % hx("sl"), "SSA 0 %s 1" % hx("sl"),
     # a string list replaced by elements of itself (cfg_setlist(cfg, n, 2, cfg_getnstr(cfg, n, 1), cfg_getnstr(cfg, n, 0)))
     "SLA 0 %s 1 0" % hx("sl"), "SLA 0 %s 0 0" % hx("sl"),
+    # options whose value is a variable of the caller's (CFG_SIMPLE_*): the same typed store, one cell
+    "SI 0 %s 0 9" % hx("si"), "SI 0 %s 1 9" % hx("si"), "SS 0 %s 0 %s" % (hx("ss"), hx("new")), "SS 0 %s 0 -" % hx("ss"), "SS 0 %s 0 %s" % (hx("sn"), hx("n")),
+    "SB 0 %s 0 0" % hx("sb"), "SM 0 %s %s %s" % (hx("ss"), hx("a"), hx("b")), "SM 0 %s %s %s" % (hx("si"), hx("1"), hx("x")), "SM 0 %s %s" % (hx("si"), hx("0x20")),
+    "SO 0 %s %s" % (hx("si"), hx("12")), "SO 0 %s %s" % (hx("ss"), hx("so")), "SSA 0 %s 0" % hx("ss"), "SOA 0 %s" % hx("ss"), "SI 0 %s 0 1" % hx("ss"),
+    "PB 0 %s" % hx(b"si = 3 ss = p sb = no sf = 2.5\n"), "SC 0 %s %s" % (hx("si"), hx("note")), "AL 0 %s 4" % hx("si"),
     # a plain (single) section removed, and mentioned again by a parse: the new instance starts from the declared defaults
     "RS 0 %s" % hx("one"), "PB 0 %s" % hx(b"one { }\n"), "PB 0 %s" % hx(b"one { wl += {z} }\n"),
 ]
@@ -74,8 +83,19 @@ def generate(rng, tier):
     cases = []
     n = 0
     depth = 2 if tier == "quick" else 3
+    simple = [op for op in OPS if op.split()[2] in SIMPLE_NAMES or b"si = 3" in bytes.fromhex(op.split()[2])]
+    core = [op for op in OPS if op not in simple]
+    # the calls on CFG_SIMPLE options: all sequences among themselves, and pairs with every other call (sampled in the quick tier)
     for d in range(1, depth + 1):
-        for seq in itertools.product(OPS, repeat=d):
+        for seq in itertools.product(simple, repeat=d):
+            cases.append(mk("x%d" % n, list(seq), d % 2 == 0, {"kind": "exhaustive_simple", "depth": d}))
+            n += 1
+    mixed = [(a, b) for a in simple for b in core] + [(b, a) for a in simple for b in core]
+    for seq in (mixed if tier != "quick" else rng.sample(mixed, 500)):
+        cases.append(mk("x%d" % n, list(seq), rng.random() < 0.5, {"kind": "mixed_simple", "depth": 2}))
+        n += 1
+    for d in range(1, depth + 1):
+        for seq in itertools.product(core, repeat=d):
             for parsed in ((False, True) if d <= 2 else (rng.random() < 0.5,)):
                 cases.append(mk("x%d" % n, list(seq), parsed, {"kind": "exhaustive", "depth": d}))
                 n += 1
